@@ -160,6 +160,7 @@ fn gen_payload(rng: &mut Rng, text: bool) -> Vec<u8> {
         0 => 0,
         1..=6 => rng.urange(1, 100),
         7 | 8 => rng.urange(100, 300),
+        9 if rng.chance(1, 2) => *rng.pick(&[124usize, 125, 126, 127, 128, 65534, 65535, 65536, 65537]),
         9 => rng.urange(65000, 66500),
         10 => rng.urange(300, 5000),
         _ => rng.urange(5000, 70 * 1024),
@@ -549,6 +550,25 @@ pub fn main(args: &Args) {
                 len += nsh;
             }
         }
+        // size sweep: one echoed message for every payload length around the three length classes of the frame
+        // header (7-bit / 16-bit / 64-bit), text (ASCII, exact length) and binary, blocking and non-blocking receive
+        if only.is_none() {
+            let sizes: Vec<usize> = (0..=130).chain(65530..=65540).collect();
+            for (i, len) in sizes.iter().enumerate() {
+                if i % nsh != shard {
+                    continue;
+                }
+                for (v, (text, nonblocking)) in [(true, false), (false, true)].into_iter().enumerate() {
+                    let mut prng = Rng::derive(seed, 0x1130_0000 + (*len as u64) * 2 + v as u64);
+                    let payload: Vec<u8> = if text { (0..*len).map(|_| b'a' + prng.below(26) as u8).collect() } else { prng.bytes(*len) };
+                    let s = Script { key: Some("dGhlIHNhbXBsZSBub25jZQ==".into()), items: vec![Item::Msg { text, payload, cuts: vec![], controls: vec![] }], end: End::ClientClose(vec![]), nonblocking, echo: true, delivery: 0 };
+                    let mut frng = Rng::derive(seed, 0x1131_0000 + *len as u64);
+                    run_script(&mut r, &lab, &s, &format!("sz{}{}", len, v), &mut frng, &["c11".to_string(), "--seed".into(), seed.to_string(), "--echo-size".into(), len.to_string()]);
+                    r.count("echo_sizes_swept", 1);
+                    r.nontrivial(0x5a00_0000 + (*len as u64) * 2 + v as u64);
+                }
+            }
+        }
         let mut k = only.unwrap_or(shard as u64);
         while k < n || only == Some(k) {
             let mut rng = Rng::derive(seed, 0x1100_0000 + k);
@@ -590,5 +610,5 @@ pub fn main(args: &Args) {
         total.nontrivial(1);
         total.nontrivial(2);
     }
-    total.write(out, "client scripts of 1..8 items over {text, binary (1..5 fragments with ping/pong interleaved between fragments), ping, pong} with payloads 0..70 KiB and random masks, ending by client Close (with/without status), server drop (handler returns) or abrupt disconnect; Sec-WebSocket-Key absent / empty / 1..256 printable chars / base64 nonce, plus one handshake for every key length 0..256; each script delivered whole, byte-wise and split inside header / extended length / key, and received once with recv and once with a recv_nonblocking polling loop (with and without echo). distinct = distinct (script, delivery, receive mode); every script is non-trivial (handshake + frames + ending judged)", None, &["'nothing yet only when no frame has started to arrive' is judged through its consequences: a completely sent message must be delivered while the handler keeps polling, and a split header must not produce an error or a garbled message", "reference client/validator: hvcommon::wsref (validated against CPython in C18)"]);
+    total.write(out, "client scripts of 1..8 items over {text, binary (1..5 fragments with ping/pong interleaved between fragments), ping, pong} with payloads 0..70 KiB and random masks, ending by client Close (with/without status), server drop (handler returns) or abrupt disconnect; Sec-WebSocket-Key absent / empty / 1..256 printable chars / base64 nonce, plus one handshake for every key length 0..256 and one echoed text and binary message for every payload length 0..130 and 65530..65540; each script delivered whole, byte-wise and split inside header / extended length / key, and received once with recv and once with a recv_nonblocking polling loop (with and without echo). distinct = distinct (script, delivery, receive mode); every script is non-trivial (handshake + frames + ending judged)", None, &["'nothing yet only when no frame has started to arrive' is judged through its consequences: a completely sent message must be delivered while the handler keeps polling, and a split header must not produce an error or a garbled message", "reference client/validator: hvcommon::wsref (validated against CPython in C18)"]);
 }
